@@ -187,21 +187,33 @@ def run(argv, env, cwd=None, timeout=60, stdin=None, copia=None):
     return RunResult(rc if rc is not None and rc >= 0 else None, sig, out.decode("utf-8", "replace"), err.decode("utf-8", "replace"), time.time() - t0, timed_out)
 
 
+def group_members_alive(pgid):
+    """Live (non-zombie) processes whose process group is pgid."""
+    n = 0
+    for d in os.listdir("/proc"):
+        if not d.isdigit():
+            continue
+        try:
+            with open("/proc/%s/stat" % d, "rb") as f:
+                st = f.read()
+        except OSError:
+            continue
+        # pid (comm) state ppid pgrp ...
+        rp = st.rfind(b")")
+        parts = st[rp + 2:].split()
+        if len(parts) > 2 and parts[0] != b"Z" and int(parts[2]) == pgid:
+            n += 1
+    return n
+
+
 def wait_group_gone(pgid, timeout=20.0):
-    """Wait until every process of the session/process group has exited (orphaned remote shells)."""
+    """Wait until every process of the process group has exited (orphaned remote shells);
+    zombies waiting for init to reap them count as exited."""
     t0 = time.time()
     while time.time() - t0 < timeout:
-        alive = False
-        try:
-            os.killpg(pgid, 0)
-            alive = True
-        except ProcessLookupError:
-            alive = False
-        except PermissionError:
-            alive = True
-        if not alive:
+        if group_members_alive(pgid) == 0:
             return True
-        time.sleep(0.005)
+        time.sleep(0.003)
     return False
 
 
